@@ -83,6 +83,12 @@ PROPS.update({
         "rule": "for each sampled world (1..4 parallel tasks + 0..3 waiting stages, hooks, conditions, contexts, processes that die at once or ignore the interrupt until killed) and its base schedule, Cancel is injected at EVERY controller step index 0..23 (index mod 24; beyond the end of the run = after everything returned), via TaskRunner.Cancel or Scheduler.Cancel, optionally a second Cancel, or from a stage-condition error; SCHED part: same enumeration (16 positions) against the stub Runner. distinct = canonical event-log hash; all runs are non-trivial (a fault fires in each)",
         "assumptions": _INTEG_ASSUME + ["condition and context service commands run under context.Background() by design and are exempt from 'terminates the commands that are running'"],
     },
+    "C08": {
+        "level": "exploration",
+        "parts": [{"engine": "fault", "profile": "c08", "weight": 1}],
+        "rule": "worlds: a configuration file (written per run, loaded by the real config loader) with one shared task (1..3 env names, 1..3 variables used as argv, optional dir) and 2..4 (thorough 6) stages overriding random subsets of env/variables/dir, arranged parallel / chained / mixed, optionally a second pipeline and a direct run of the task in the same process, drivers run in sequence. Schedule space: order in which stage goroutines parked at goroutine start and at Run entry proceed, and process completion order. Oracle at every exec: each namespaced env name, variable (argv) and dir == this stage's override, else the task's own value; a leaking value is attributed to the stage it came from. distinct = canonical event-log hash; all runs non-trivial (every world has >=2 users of the task)",
+        "assumptions": _INTEG_ASSUME + ["names live in a namespace no other level defines, so no other layering rule is involved", "execs are attributed to stages by goroutine id"],
+    },
     "C14": {
         "level": "exploration",
         "parts": [{"engine": "fault", "profile": "c14", "weight": 1}],
@@ -112,6 +118,7 @@ _TXT.update({
     "C07": ("exploration", "Every exit status at every command position is injected (systematic part) and the reported fields, returned errors and stage statuses are compared with the model; random worlds add hooks, conditions, pipelines.", "a failing before-hook must make Run return an error; Errored/ExitCode are not compared in that case (statement speaks about commands)"),
     "C11": ("exploration", "Byte-exact comparison of captured output with what the simulated processes wrote, and of the environment every dependant's commands actually receive, across DAG positions and completion orders.", "only direct dependants are constrained; values travel through the real env/interpreter path"),
     "C12": ("fault_enumeration", "Cancel is injected at every step index of each sampled run (plus before the run, after it, twice, via a condition error); rules: process survives, Cancel returns, run returns, running commands interrupted, nothing starts after Cancel returned, no interrupted/unstarted task reports success.", "enumeration is over controller steps of sampled worlds and schedules, not over all worlds"),
+    "C08": ("exploration", "Real config loader + scheduler + runner over one shared task object; what every simulated process actually receives (env, argv, dir) is compared with 'task settings overlaid by this stage's overrides' for overlapping and sequential stages, a second pipeline and a direct run.", "sampled configurations and schedules"),
     "C14": ("exploration", "Hook exec history per context compared with the statement: up once and finished before anything else of the context (also for tasks racing into Up while it runs), before/after exactly once around each task execution (per-goroutine pattern), down once at Finish for used contexts only.", "sampled worlds and schedules; CLI part (Finish on failed targets) covered by the CLI profile"),
     "C13": ("fault_enumeration", "The overrunning command is placed at every position of each sampled task under six process shapes; deadlines are compared exactly on the fake clock (start+timeout per command).", "positions x shapes are enumerated per sampled task; tasks and timeouts are sampled"),
 })
@@ -127,7 +134,6 @@ NOT_APPLICABLE = [
     {"property_id": "C16", "reason": "format equivalence of three decoders is pure"},
     {"property_id": "C17", "reason": "import closure is a pure function of a directory tree; termination is recursion on a finite structure, not a schedule"},
     {"property_id": "C18", "reason": "load-time reference validation is pure; needs malformed inputs, not schedules or faults"},
-    {"property_id": "C08", "reason": "TEMPORARY: INTEG engine under construction (claimed in DESIGN.md)"},
     {"property_id": "C19", "reason": "TEMPORARY: INTEG engine under construction (claimed in DESIGN.md)"},
     {"property_id": "C20", "reason": "TEMPORARY: WATCH engine under construction (claimed in DESIGN.md)"},
 ]
